@@ -12,19 +12,19 @@ CONSTANTS Domain, Shard, NShards    \* which value domain; sharding of the enume
 VARIABLE v
 vars == <<v>>
 
-D1 == ScalarsFull \cup Lists(ScalarsFull, 1) \cup Maps(KeysFull, ScalarsSmall, 1)
+D1(dummy) == ScalarsFull \cup Lists(ScalarsFull, 1) \cup Maps(KeysFull, ScalarsSmall, 1)
       \cup Maps(KeysSmall, ScalarsTiny, 3) \cup Lists(ScalarsSmall, 2) \cup WideLists \cup WideMaps
-Mid == ScalarsTiny \cup Lists(ScalarsTiny, 1) \cup Maps({<<97>>, <<98, 98>>}, ScalarsTiny, 2)
-D2 == Lists(Mid, 2) \cup Maps({<<98>>, <<97, 97>>, <<99>>}, Mid, 2)
-D3 == Maps(KeysFull, ScalarsTiny, 2) \cup Maps(KeysSmall, ScalarsSmall, 2)
-      \cup {ListV(<<x>>) : x \in D2} \cup {MapV(<<<<120>>>>, <<x>>) : x \in D2}
+Mid(dummy) == ScalarsTiny \cup Lists(ScalarsTiny, 1) \cup Maps({<<97>>, <<98, 98>>}, ScalarsTiny, 2)
+D2(dummy) == Lists(Mid(0), 2) \cup Maps({<<98>>, <<97, 97>>, <<99>>}, Mid(0), 2)
+D3(dummy) == Maps(KeysFull, ScalarsTiny, 2) \cup Maps(KeysSmall, ScalarsSmall, 2)
+      \cup {ListV(<<x>>) : x \in D2(0)} \cup {MapV(<<<<120>>>>, <<x>>) : x \in D2(0)}
 
 \* thorough tier: every pair of full-range scalars, three-key maps over the full key set, one more level of nesting
-D4 == Lists(ScalarsFull, 2) \cup Maps(KeysFull, ScalarsTiny, 3)
-      \cup {ListV(<<MapV(<<<<121>>>>, <<x>>)>>) : x \in D2}
+D4(dummy) == Lists(ScalarsFull, 2) \cup Maps(KeysFull, ScalarsTiny, 3)
+      \cup {ListV(<<MapV(<<<<121>>>>, <<x>>)>>) : x \in D2(0)}
 
-ValueSet == CASE Domain = "D1" -> D1 [] Domain = "D2" -> D2 [] Domain = "D3" -> D3 [] Domain = "D4" -> D4
-              [] Domain = "all" -> D1 \cup D2 \cup D3
+ValueSet == CASE Domain = "D1" -> D1(0) [] Domain = "D2" -> D2(0) [] Domain = "D3" -> D3(0) [] Domain = "D4" -> D4(0)
+              [] Domain = "all" -> D1(0) \cup D2(0) \cup D3(0)
 
 \* cheap structural hash for sharding
 RECURSIVE Weight(_)
